@@ -1,4 +1,4 @@
-from . import c09, c10, c16, fixedchk, graph, sem, text
+from . import c09, c10, c13, c16, fixedchk, graph, sem, text
 
 CHECKS = {
     "C01": sem.run,
@@ -12,6 +12,7 @@ CHECKS = {
     "C10": c10.run,
     "C11": graph.c11,
     "C12": fixedchk.c12,
+    "C13": c13.run,
     "C15": text.c15,
     "C16": c16.run,
     "C17": fixedchk.c17,
